@@ -192,6 +192,7 @@ def run_jobs(ctx, jobs, updates=True):
         d1 = next((l for l in a if l.startswith("len=") and "hex=" in l), None)
         d3 = next((l for l in c if l.startswith("len=") and "hex=" in l), None)
         r["script3"] = s3[i][1]
+        r["lines1"], r["lines2"], r["lines3"] = a, b, c      # the transcripts: input of the Lean predicate (vlib/abswrite.py)
         if d1 is not None and d3 is not None and d1 != d3:
             h1, h3 = d1.split("hex=")[1], d3.split("hex=")[1]
             d = next((k for k in range(0, min(len(h1), len(h3)), 2) if h1[k:k + 2] != h3[k:k + 2]), min(len(h1), len(h3)))
